@@ -506,13 +506,102 @@ def unit_hyp(rec: Rec, n: int, offset: int, side: str) -> None:
     hyp.run(rec, cases(side), body, n, seed_offset=offset, max_root_causes=6)
 
 
+def post_cases() -> list[dict]:
+    """request.post() on a multipart/form-data request whose WHOLE body is content-coded: client_max_size is about what the
+    application gets (decoded bytes), not about what was on the wire."""
+    out = []
+    for coding in ("gzip", "deflate", "br", "zstd"):
+        for cms in (1024, 65536):
+            for mult in (0.5, 4, 40):
+                for shape in ("text", "file", "many"):
+                    out.append({"coding": coding, "cms": cms, "mult": mult, "shape": shape})
+    return out
+
+
+def check_post(rec: Rec, case: dict) -> None:
+    from aiohttp import web
+
+    cms = case["cms"]
+    size = int(cms * case["mult"])
+    payload = (b"form-data-" * (size // 10 + 1))[:size]  # compresses well: the wire size stays far below cms
+    B = b"BOUND"
+    if case["shape"] == "many":
+        n = max(1, size // 256)
+        doc = b"".join(b"--" + B + b"\r\nContent-Disposition: form-data; name=\"f%d\"\r\n\r\n" % k + payload[k * 256:(k + 1) * 256] + b"\r\n" for k in range(n))
+        decoded = sum(len(payload[k * 256:(k + 1) * 256]) for k in range(n))
+    else:
+        disp = b'Content-Disposition: form-data; name="f"' + (b'; filename="x.bin"\r\nContent-Type: application/octet-stream' if case["shape"] == "file" else b"")
+        doc = b"--" + B + b"\r\n" + disp + b"\r\n\r\n" + payload + b"\r\n"
+        decoded = size
+    doc += b"--" + B + b"--\r\n"
+    wire = encode([doc], case["coding"])
+    loop = new_loop()
+    result: dict = {}
+    try:
+        async def handler(request: web.Request):
+            d = await request.post()
+            got = 0
+            for v in d.values():
+                got += len(v.file.read()) if hasattr(v, "file") else len(v)
+            result["got"] = got
+            return web.Response(text="ok")
+
+        async def main():
+            app = web.Application(client_max_size=cms)
+            app.router.add_post("/", handler)
+            runner = web.AppRunner(app, access_log=None)
+            await runner.setup()
+            proto = runner.server()
+            peer = memnet.ScriptPeer()
+            memnet.connect_protocols(loop, [], peer, proto, c2s=memnet.Plan([1500]))
+            peer.send(b"POST / HTTP/1.1\r\nHost: a\r\nContent-Type: multipart/form-data; boundary=BOUND\r\nContent-Encoding: "
+                      + wire_coding(case["coding"], 0).encode() + b"\r\nContent-Length: %d\r\n\r\n" % len(wire) + wire)
+            for _ in range(20000):
+                if b"\r\n\r\n" in peer.received or peer.lost:
+                    break
+                await asyncio.sleep(0)
+            result["response"] = bytes(peer.received)
+            await runner.cleanup()
+
+        loop.drive(main(), max_time=200)
+    finally:
+        loop.shutdown()
+    resp = result.get("response", b"")
+    status = int(resp[9:12]) if resp[:5] == b"HTTP/" else 0
+    if decoded > cms:
+        if status != 413 or "got" in result:
+            raise Violation("client-max-size/post", f"{case}: form of {decoded} decoded bytes ({len(wire)} on the wire) with client_max_size={cms}: status {status}, "
+                            f"post() handed {result.get('got')} bytes to the application")
+    elif len(doc) <= cms and (status != 200 or result.get("got") != decoded):
+        raise Violation("server-body-differs/post", f"{case}: status {status}, post() returned {result.get('got')} bytes of {decoded}")
+    rec.case(case, decoded > cms, ["post-multipart-coded", case["coding"]])
+
+
+def unit_post(rec: Rec, shard: int, nshards: int) -> None:
+    rec.exhaustive = True
+    for i, case in enumerate(post_cases()):
+        if i % nshards != shard:
+            continue
+        try:
+            check_post(rec, case)
+        except Violation as v:
+            if v.key in rec.muted:
+                continue
+            rec.fail(v.key, v.msg, case)
+            rec.muted.add(v.key)
+
+
 def units(tier: str, seed: int) -> list[Unit]:
     n = 150 if tier == "quick" else 1500
     us = [Unit(f"client{i}", unit_hyp, {"n": n, "offset": i, "side": "client"}) for i in range(10)]
     us += [Unit(f"server{i}", unit_hyp, {"n": n, "offset": 40 + i, "side": "server"}) for i in range(6)]
     us += [Unit(f"backpressure{i}", unit_backpressure, {"n": max(20, n // 2), "offset": 80 + i}) for i in range(4)]
+    us += [Unit(f"post{sh}", unit_post, {"shard": sh, "nshards": 2}) for sh in range(2)]
     return us
 
 
 def replay(rec: Rec, case: dict) -> None:
+    if "cms" in case and "shape" in case:
+        check_post(rec, case)
+        return
     execute(case)
